@@ -2,7 +2,7 @@
 import ast
 import re
 
-from .common import ctx, returns, calls_in_ctx, reach_from_succ, site, srcs_text, resolve_call
+from .common import ctx, returns, calls_in_ctx, reach_from_succ, site, srcs_text, resolve_call, path_texts
 from ..flow import callee_attr
 from ..loader import AnalysisError, norm, FuncT
 from ..sql import statements, triggers, tables
@@ -181,6 +181,8 @@ def run(R):
     nres = 0
     for cls in ('Identity', 'Key'):
         for mname, mnode in P.methods_of(KM, cls).items():
+            if f'{KM}.{cls}.{mname}' in getattr(P, 'absorbed_funcs', {}):
+                continue        # a new helper read at its call sites
             cx = ctx(R, f'{KM}.{cls}.{mname}')
             for (n, c) in calls_in_ctx(cx):
                 f = c.func
@@ -277,24 +279,32 @@ def run(R):
                f'tpm.get_signer are {[ast.unparse(a) for a in tc_args]}', site(gs, tc))
     inst = gs.qual + ' :: key name and certificate belong together'
     probs = []
-    for n in gs.cfg.nodes:
-        for (nm, v) in gs.cfg.defs_of(n):
-            if nm == 'key_name' and isinstance(v, ast.AST):
-                t = ast.unparse(v)
-                if t in ("sign_args.get('key', None)", "sign_args.get('key')", 'cert_name[:-2]', 'key.name', 'key_name.name'):
-                    continue
-                probs.append((f'key name derived as `{t}`', v))
-            if nm == 'cert_name' and isinstance(v, ast.AST):
-                t = ast.unparse(v)
-                if t in ("sign_args.get('cert', None)", "sign_args.get('cert')", 'key.default_cert().name', 'key_name.default_cert().name',
-                         'self[id_name][key_name].default_cert().name', 'self[key_name[:-2]][key_name].default_cert().name', 'cert_name.name'):
-                    continue
-                probs.append((f'certificate name derived as `{t}`', v))
+    # at the request to the private-key store, on every path: (key name, certificate name) read back through the locals is one of
+    #   (<cert>[:-2], <cert>)                                  a certificate given (by name or as object: <cert> = arg or arg.name)
+    #   (<key>, self[<key>[:-2]][<key>].default_cert().name)   a key given by name
+    #   (<obj>.name, <obj>.default_cert().name)                a Key object given, or the default key of the selected identity
+    tcn = gs.node_of(tc)
+    cert_e = ast.Name(id='cert_name', ctx=ast.Load())
+    # the certificate name on that path: what the key locator defaults to
+    pairs = path_texts(gs, tcn, [tc_args[0], cert_e]) if tc_args else set()
+    R.paths_examined += len(pairs)
+    if not pairs:
+        raise AnalysisError('get_signer: cannot read back the key / certificate selection')
+    for (k, c) in sorted(pairs):
+        okp = False
+        if k == c + '[:-2]' and c.startswith("sign_args.get('cert'"):
+            okp = True
+        elif k.endswith('.name') and c == k[:-5] + '.default_cert().name':
+            okp = True
+        elif k.startswith("sign_args.get('key'") and c == f'self[{k}[:-2]][{k}].default_cert().name':
+            okp = True
+        if not okp:
+            probs.append((f'on some path the key name is `{k}` while the certificate name is `{c}`: the certificate is not (the default one) of that key', tc))
     if probs:
-        for (what, construct) in probs:
+        for (what, construct) in probs[:2]:
             R.fail('C15.PRV.1', inst, gs.qual, construct, what, site(gs, construct))
     else:
-        R.ok('C15.PRV.1', inst, site(gs, gs.f.node))
+        R.ok('C15.PRV.1', inst, site(gs, gs.f.node), f'{len(pairs)} path histories')
 
     # ------------------------------------------------------------------ ORD.1 deletes
     R.ob('C15.ORD.1', 'deleting removes everything beneath (certificates, key row, private key; keys of an identity) and resets the signer cache afterwards')
